@@ -134,6 +134,39 @@ def run(prop, tier, seed, workdir):
             cid += 1
             meta[cid] = ("w", 0, dmax, fs)
             lines.append("%d w %d %d %s" % (cid, dmax, len(fs), " ".join(map(str, fs))))
+    # the stages of wcsnorm_s as entry points of their own: decompose (order of the source kept), reorder (len elements), compose
+    # (of a canonically ordered decomposed string); every dmax from 1 to ample for the short ones - dest flush against the guard page
+    def nfd(q):
+        return [ord(ch) for ch in unicodedata.normalize("NFD", "".join(chr(c) for c in q))]
+    stage = []
+    base = [q for q in sweep if 894 not in q] + [[0x61, 0x301, 0x323], [0x61, 0x323, 0x301, 0x62, 0x301], [0x301, 0x323, 0x61], [0x41, 0x30A, 0x301], [0x45, 0x304, 0x300],
+                                                   [0x9C7, 0x9BE], [0x1100, 0x1161, 0x11A8], [0xAC00, 0x11A8], [0x61] + [0x301, 0x323] * 6, [0x61] + [0x323, 0x301] * 9, [0x62, 0x61] + [0x315, 0x300, 0x5AE, 0x300] * 3]
+    for _ in range(120 if tier == "quick" else 2500):
+        n = rnd.randint(1, 9)
+        q = []
+        while len(q) < n:
+            q.append(rnd.choice(starters))
+            for _ in range(rnd.randint(0, min(4, n - len(q)))):
+                q.append(rnd.choice(marks))
+        base.append(q[:n])
+    for q in rnd.sample(pairs, 150 if tier == "quick" else len(pairs)):
+        base.append(q)
+    for q in base:
+        if 894 in q:
+            continue
+        dq = nfd(q)
+        full = len(dq) <= 8 or rnd.random() < 0.2
+        for op, src in (("d", q), ("r", q), ("r", [c for c in dq[::-1]] if len(dq) < 6 else dq), ("c", dq)):
+            if op == "r":
+                # reorder takes decomposed input; feed the unordered decomposition (marks in source order)
+                src = [c for ch in q for c in nfd([ch])] if src is q else src
+            top = (len(dq) if op != "c" else len(src)) + (7 if op == "d" else 3)
+            for dmax in (range(1, top + 1) if full else sorted({1, max(1, len(src) - 1), len(src), len(src) + 1, top})):
+                stage.append((op, dmax, src))
+    for op, dmax, src in stage:
+        cid += 1
+        meta[cid] = (op, 0, dmax, src)
+        lines.append("%d %s %d %d %s" % (cid, op, dmax, len(src), " ".join(map(str, src))))
     b = build.ensure(["slack"], [("hnorm", "slack")])
     exe = b[("hnorm", "slack")]
     k = 16
@@ -152,6 +185,9 @@ def run(prop, tier, seed, workdir):
                 t = ch[pos].split()
                 if t[1] == "w":
                     out.append(json.dumps(dict(id=int(t[0]), op="w", dmax=int(t[2]), s=[int(x) for x in t[4:]], each=[1 for x in t[4:]], post=[], rc=-9999, len=0, h=[], hn=0, hk="",
+                                               frame_ok=True, fault="abort")))
+                elif t[1] in ("d", "r", "c"):
+                    out.append(json.dumps(dict(id=int(t[0]), op=t[1], mode=0, dmax=int(t[2]), s=[int(x) for x in t[4:]], post=[], rc=-9999, len=0, h=[], hn=0, hk="",
                                                frame_ok=True, fault="abort")))
                 elif t[1] == "n":
                     out.append(json.dumps(dict(id=int(t[0]), op="n", mode=int(t[2]), dmax=int(t[3]), s=[int(x) for x in t[5:]], post=[], rc=-9999, len=0, h=[], hn=0, hk="",
@@ -187,6 +223,8 @@ def run(prop, tier, seed, workdir):
         m = meta[bd["i"]]
         if m[0] == "w":
             desc = "wcsfc_s(dmax=%d, %s): %s" % (m[2], " ".join("U+%04X" % c for c in m[3][:10]), bd["why"])
+        elif m[0] in ("d", "r", "c"):
+            desc = "%s(dmax=%d, %s): %s" % (dict(d="wcsnorm_decompose_s", r="wcsnorm_reorder_s", c="wcsnorm_compose_s")[m[0]], m[2], " ".join("U+%04X" % c for c in m[3][:14]), bd["why"])
         elif m[0] == "n":
             desc = "wcsnorm_s(%s, dmax=%d, %s): %s" % ("NFC" if m[1] else "NFD", m[2], " ".join("U+%04X" % c for c in m[3][:10]), bd["why"])
         else:
@@ -201,7 +239,7 @@ def run(prop, tier, seed, workdir):
              "(starter, mark) pairs alone and with an interposed ccc-220 mark, aliases of the composing pairs in the other planes / rows (same low 16 bits, one bit of the row changed: must not compose), Hangul L/V/T and syllables, seeded random starter+marks strings of length <= 12 "
              "(incl. > 10 marks), a seeded sample (thorough: all) of the other assigned code points, out-of-range and surrogate values, NFD and NFC, dmax "
              "from the documented minimum / exact fit to ample, each successful result normalized again; fold: iswfc vs towfc_s vs wcsfc_s for %d code "
-             "points; wcsfc_s on strings of characters folding to 1-4 elements for every dmax from 1 to ample (terminated, inside dmax, no longer than the characters alone, cleared and reported once on failure, success with the documented room). TraceNorm.tla compares with NFD/NFC of NormDefs.tla (tables from python3 unicodedata 14.0). non-trivial = distinct input strings" % (
+             "points; wcsfc_s on strings of characters folding to 1-4 elements for every dmax from 1 to ample (terminated, inside dmax, no longer than the characters alone, cleared and reported once on failure, success with the documented room). The stages wcsnorm_decompose_s / wcsnorm_reorder_s / wcsnorm_compose_s as entry points of their own (result = DecompStr / Reorder / ComposeRec of NormDefs.tla, stored with its terminator inside dmax or failing with one report and an emptied dest; every dmax from 1 to ample, mark runs of 12 and 18). TraceNorm.tla compares with NFD/NFC of NormDefs.tla (tables from python3 unicodedata 14.0). non-trivial = distinct input strings" % (
                  3 if tier == "quick" else 4, len(foldcps)),
         samples=[dict(op=meta[i][0], mode=meta[i][1], dmax=meta[i][2], s=meta[i][3]) for i in (1, 2001, 4001) if i in meta and meta[i][0] == "n"],
         exhaustive=False, checker_cmd="tlc Norm.tla (INVARIANTS Idempotent Agree Lengths); tlc TraceNorm.tla")
@@ -216,7 +254,7 @@ def replay(rp, workdir):
     line = rp.get("line")
     if not line:        # an event recorded from the repository's tests: the same call, rebuilt from its description
         m = rp["meta"]
-        line = ("1 w %d %d %s" % (m[2], len(m[3]), " ".join(map(str, m[3])))) if m[0] == "w" else "1 n %d %d %d %s" % (m[1], m[2], len(m[3]), " ".join(map(str, m[3])))
+        line = ("1 %s %d %d %s" % (m[0], m[2], len(m[3]), " ".join(map(str, m[3])))) if m[0] in ("w", "d", "r", "c") else "1 n %d %d %d %s" % (m[1], m[2], len(m[3]), " ".join(map(str, m[3])))
     p = subprocess.run([b[("hnorm", "slack")]], input=line + "\n", stdout=subprocess.PIPE, text=True, timeout=60)
     evs = ['{"slack":1,' + ln[1:] for ln in p.stdout.splitlines() if ln.startswith("{")]
     print("\n".join(evs))
